@@ -20,7 +20,7 @@ class Shape(Exception):
     pass
 
 
-TOKEN = re.compile(r'\s*(=>|==|!=|&&|\|\||<=|>=|::|[A-Za-z_][A-Za-z0-9_]*!?|\d+|"(?:[^"\\]|\\.)*"|[(){}\[\],.&|<>;:!?\'#=])')
+TOKEN = re.compile(r'\s*(=>|==|!=|&&|\|\||<=|>=|::|[A-Za-z_][A-Za-z0-9_]*!?|\d+|"(?:[^"\\]|\\.)*"|[-+(){}\[\],.&|<>;:!?\'#=])')
 
 
 def lex(text):
@@ -38,10 +38,20 @@ def lex(text):
 
 
 def fn_body(src, name):
-    m = re.search(r'\bpub\s+fn\s+%s\s*(?:<[^>]*>)?\s*\(' % re.escape(name), src)
+    m = re.search(r'\bfn\s+%s\b' % re.escape(name), src)
     if not m:
         raise Shape('fn %s not found' % name)
-    depth, i = 0, m.end() - 1
+    i, angle = m.end(), 0
+    while True:                                              # skip the generic parameters
+        c = src[i]
+        if c == '<':
+            angle += 1
+        elif c == '>' and src[i - 1] != '-':
+            angle -= 1
+        elif c == '(' and angle == 0:
+            break
+        i += 1
+    start, depth = i, 0
     while True:
         c = src[i]
         depth += c == '('
@@ -49,8 +59,23 @@ def fn_body(src, name):
         i += 1
         if depth == 0:
             break
-    params = re.findall(r'(\w+)\s*:', src[m.end():i - 1])
+    plist, cur, d = [], '', 0
+    for c in src[start + 1:i - 1]:
+        if c in '(<[':
+            d += 1
+        elif c in ')>]':
+            d -= 1
+        if c == ',' and d == 0:
+            plist.append(cur); cur = ''
+        else:
+            cur += c
+    if cur.strip():
+        plist.append(cur)
+    params = [re.match(r'\s*(?:mut\s+)?(\w+)\s*:', x).group(1) for x in plist if re.match(r'\s*(?:mut\s+)?(\w+)\s*:', x)]
     b = src.index('{', i)
+    w = src[i:b]
+    if ';' in w:
+        raise Shape('fn %s has no body' % name)
     depth, j = 0, b
     while True:
         c = src[j]
@@ -67,10 +92,13 @@ def fn_body(src, name):
 
 
 MODEL = {'and': 'band', 'or': 'bor', 'not': 'bnot', 'implies': 'bimplies', 'ite': 'bite', 'eq': 'beq', 'xor': 'bxor', 'nor': 'bnor',
-         'nand': 'bnand', 'var': 'bvar', 'exists_impl': 'bex1', 'exists': 'bex', 'all': 'ball', 'model': 'bmodel'}
+         'nand': 'bnand', 'var': 'bvar', 'exists_impl': 'bex1', 'exists': 'bex', 'all': 'ball', 'model': 'bmodel', 'cmp_count': 'cmp_count', 'cmp_count_compare': 'cmp_count_compare',
+         'aln': 'aln', 'amn': 'amn', 'exn': 'exn', 'count_leq': 'count_leq', 'count_lt': 'count_lt', 'count_geq': 'count_geq', 'count_gt': 'count_gt',
+         'count_eq': 'count_eq', 'count_leq_recursive': 'src_count_leq_recursive', 'count_geq_recursive': 'src_count_geq_recursive'}
 PRED = {'is_const': 'is_const %s', 'is_choice': 'negb (is_const %s)', 'is_true': 'is_true %s', 'is_false': 'is_false %s'}
 CANON = (('at_', 'va', 'af'), ('bt', 'vb', 'bf'))
-KEYWORDS = ('match', 'if', 'else', 'let', 'panic!', 'eprintln!', 'true', 'false', 'self', 'Rc', 'ref')
+KEYWORDS = ('match', 'if', 'else', 'let', 'panic!', 'eprintln!', 'true', 'false', 'self', 'Rc', 'ref', 'Self')
+ZOPS = {'<=': '<=?', '>=': '>=?', '==': '=?', '<': '<?', '>': '>?'}
 
 
 class P:
@@ -82,6 +110,7 @@ class P:
         self.rename = {}
         self.totals = totals if totals is not None else []
         self.special = special or {}         # (identifier, method) -> Gallina text (e.g. filter.is_true())
+        self.fnparams = ()                   # parameters that are functions (cmp)
 
     def peek(self, k=0):
         return self.t[self.i + k] if self.i + k < len(self.t) else None
@@ -183,9 +212,11 @@ class P:
                     self.eat(',')
             self.eat(')')
             if name == 'mk_const':
-                if args not in (['true'], ['false']):
-                    raise Shape('mk_const of a non-literal')
-                return 'T' if args == ['true'] else 'F'
+                if args in (['true'], ['false']):
+                    return 'T' if args == ['true'] else 'F'
+                if len(args) == 1 and args[0].startswith('('):
+                    return '(bconst %s)' % args[0]
+                raise Shape('mk_const of %s' % args)
             if name == 'mk_choice':
                 if len(args) != 3:
                     raise Shape('mk_choice arity')
@@ -195,10 +226,41 @@ class P:
             if name in MODEL:
                 return '(%s %s)' % (MODEL[name], ' '.join(args))
             raise Shape('call of self.%s' % name)
+        if tok == 'Self' and self.peek(1) == '::':
+            self.eat(); self.eat()
+            name = self.eat()
+            if name not in MODEL:
+                raise Shape('Self::%s' % name)
+            return MODEL[name]
+        if tok == '|':                                     # a closure over one integer: |n| n <= 0
+            self.eat('|'); x = self.eat(); self.eat('|')
+            y = self.eat(); op = self.eat(); k = self.eat()
+            if y != x or op not in ZOPS or not k.isdigit():
+                raise Shape('closure body')
+            return '(fun %s => (%s %s %s)%%Z)' % (x, x, ZOPS[op], k)
+        if tok == '-' and (self.peek(1) or '').isdigit():
+            self.eat(); return '(-%s)%%Z' % self.eat()
+        if tok and tok.isdigit():
+            self.eat(); return '%s%%Z' % tok
         if tok and re.fullmatch(r'[A-Za-z_]\w*', tok) and tok not in KEYWORDS:
             self.eat()
+            if tok in self.fnparams and self.peek() == '(':
+                self.eat('(')
+                args = []
+                while self.peek() != ')':
+                    if self.peek() == 'self':
+                        self.eat()
+                    else:
+                        args.append(self.expr())
+                    if self.peek() == ',':
+                        self.eat(',')
+                self.eat(')')
+                return '(%s %s)' % (tok, ' '.join(args))
             if self.peek() == '.' and self.peek(1) == 'clone':
                 self.eat(); self.eat(); self.eat('('); self.eat(')')
+            if self.peek() in ('+', '-') and (self.peek(1) or '').isdigit():
+                op = self.eat(); k = self.eat()
+                return '(%s %s %s)%%Z' % (self.rename.get(tok, tok), op, k)
             return self.rename.get(tok, tok)
         raise Shape('expression starting with %r' % tok)
 
@@ -244,6 +306,27 @@ class P:
 
     def ifexpr(self):
         self.eat('if')
+        if self.peek(1) == '.' and self.peek(2) == 'is_empty':
+            x = self.eat(); self.eat('.'); self.eat('is_empty'); self.eat('('); self.eat(')')
+            a = self.block()
+            self.eat('else'); self.eat('{')
+            self.eat('let'); h = self.eat(); self.eat('='); self.eat('&')
+            if self.eat() != x:
+                raise Shape('list idiom: head')
+            self.eat('['); 
+            if self.eat() != '0':
+                raise Shape('list idiom: head index')
+            self.eat(']'); self.eat(';')
+            self.eat('let'); t = self.eat(); self.eat('=')
+            if self.eat() != x:
+                raise Shape('list idiom: tail')
+            self.eat('[')
+            if self.eat() != '1':
+                raise Shape('list idiom: tail index')
+            self.eat('.'); self.eat('.'); self.eat(']'); self.eat('.'); self.eat('to_vec'); self.eat('('); self.eat(')'); self.eat(';')
+            self.t.insert(self.i, '{')                      # the rest of the else block is an ordinary block
+            b = self.block()
+            return '(match %s with nil => %s | cons %s %s => %s end)' % (self.rename.get(x, x), a, h, t, b)
         c = self.cond()
         t = self.block()
         if self.peek() != 'else':
@@ -412,10 +495,11 @@ def rename_of(alt):
     return r
 
 
-def translate(src, name, rec=None, special=None):
+def translate(src, name, rec=None, special=None, fnparams=()):
     params, body = fn_body(src, name)
     totals = []
     p = P(lex(body), rec or {}, totals, special=special)
+    p.fnparams = fnparams
     e = p.block()
     if p.peek() is not None:
         raise Shape('fn %s: text after the body' % name)
@@ -432,7 +516,7 @@ Ltac split_ifs := repeat match goal with |- context [if ?c then _ else _] => des
 
 def gallina(src):
     out = ['(* generated by lib/vlib/srcfun.py from /repo/src/bdd.rs on every run; do not edit *)',
-           'From Coq Require Import List Arith Bool Lia PeanoNat.', 'From Rsbdd Require Import Core.Bdd Core.Ops.', '', LTAC]
+           'From Coq Require Import List Arith Bool Lia PeanoNat ZArith.', 'From Rsbdd Require Import Core.Bdd Core.Ops.', '', LTAC]
     names = []
 
     def totals(prefix, tot):
@@ -511,6 +595,41 @@ def gallina(src):
     out += ['Definition src_infer (%s : bdd) (%s : nat) : bool * bool := %s.' % (ps[0], ps[1], e),
             'Lemma src_infer_ok : forall %s %s, src_infer %s %s = binfer %s %s.' % (ps[0], ps[1], ps[0], ps[1], ps[0], ps[1]),
             'Proof. intros. unfold src_infer, binfer. cbv zeta. destruct (bimplies _ _); reflexivity. Qed.', '']
+    # the counting cascade and the quantifier over a list: recursion over a slice written as is_empty / [0] / [1..]
+    ps, e, tot = translate(src, 'cmp_count', {'cmp_count': 'src_cmp_count'}, fnparams=('cmp',))
+    if ps != ['branches', 'n', 'cmp']:
+        raise Shape('cmp_count takes %s' % ps)
+    out += ['Fixpoint src_cmp_count (branches : list bdd) (n : Z) (cmp : Z -> bool) {struct branches} : bdd := %s.' % e,
+            'Lemma src_cmp_count_ok : forall bs n cmp, src_cmp_count bs n cmp = cmp_count bs n cmp.',
+            'Proof. induction bs as [|x r IH]; intros n cmp; cbn [src_cmp_count cmp_count]; [reflexivity | rewrite !IH; reflexivity]. Qed.']
+    names.append('src_cmp_count_ok')
+    ps, e, tot = translate(src, 'cmp_count_compare', {'cmp_count_compare': 'src_cmp_count_compare'}, fnparams=('cmp',))
+    if ps != ['a', 'b', 'n', 'cmp']:
+        raise Shape('cmp_count_compare takes %s' % ps)
+    out += ['Fixpoint src_cmp_count_compare (a b : list bdd) (n : Z) (cmp : list bdd -> Z -> bdd) {struct a} : bdd := %s.' % e,
+            'Lemma src_cmp_count_compare_ok : forall a b n cmp, src_cmp_count_compare a b n cmp = cmp_count_compare a b n cmp.',
+            'Proof. induction a as [|x r IH]; intros b n cmp; cbn [src_cmp_count_compare cmp_count_compare]; [reflexivity | rewrite !IH; reflexivity]. Qed.']
+    names.append('src_cmp_count_compare_ok')
+    for name in ('aln', 'amn', 'exn'):
+        ps, e, tot = translate(src, name)
+        names.append('src_%s_ok' % name)
+        out += ['Definition src_%s (%s : list bdd) (%s : Z) : bdd := %s.' % (name, ps[0], ps[1], e),
+                'Lemma src_%s_ok : forall bs n, src_%s bs n = %s bs n.' % (name, name, name), 'Proof. reflexivity. Qed.']
+    for name in ('count_leq_recursive', 'count_geq_recursive'):
+        ps, e, tot = translate(src, name)
+        out += ['Definition src_%s (%s %s : list bdd) (%s : Z) : bdd := %s.' % (name, ps[0], ps[1], ps[2], e)]
+    for name in ('count_leq', 'count_lt', 'count_geq', 'count_gt', 'count_eq'):
+        ps, e, tot = translate(src, name)
+        names.append('src_%s_ok' % name)
+        out += ['Definition src_%s (%s %s : list bdd) : bdd := %s.' % (name, ps[0], ps[1], e),
+                'Lemma src_%s_ok : forall a b, src_%s a b = %s a b.' % (name, name, name), 'Proof. reflexivity. Qed.']
+    ps, e, tot = translate(src, 'exists', {'exists': 'src_bex'})
+    if len(ps) != 2:
+        raise Shape('exists takes %s' % ps)
+    out += ['Fixpoint src_bex (%s : list nat) (%s : bdd) {struct %s} : bdd := %s.' % (ps[0], ps[1], ps[0], e),
+            'Lemma src_bex_ok : forall vs b, src_bex vs b = bex vs b.',
+            'Proof. induction vs as [|x r IH]; intros b; cbn [src_bex bex]; [reflexivity | rewrite IH; reflexivity]. Qed.', '']
+    names.append('src_bex_ok')
     for nm in names:
         out.append('Print Assumptions %s.' % nm)
     return '\n'.join(out) + '\n', names
@@ -523,7 +642,7 @@ def run(ctx):
     try:
         src = open(bdd_rs, encoding='utf-8').read()
         text, names = gallina(src)
-        info.update(functions=16, obligations=len(names))
+        info.update(functions=30, obligations=len(names))
         gdir = os.path.join(ctx.build, 'gen')
         os.makedirs(gdir, exist_ok=True)
         gen = os.path.join(gdir, 'SrcFun_%s.v' % ctx.pid)
@@ -547,5 +666,5 @@ def run(ctx):
     if status != 'shape-not-recognised':
         for t in (names or ['src_band_ok']):
             ctx.obligations.append(('generated:' + t, 'closed' if status == 'proved' else 'failed'))
-    ctx.trusted.append('translator lib/vlib/srcfun.py (match arms, let / if chains and compositions of 16 functions of src/bdd.rs -> Gallina functions; status this run: %s)' % status)
+    ctx.trusted.append('translator lib/vlib/srcfun.py (match arms, let / if chains and compositions and slice recursions of 30 functions of src/bdd.rs -> Gallina functions; status this run: %s)' % status)
     return status, detail, info
